@@ -307,6 +307,76 @@ def walk_no_nested_defs(node):
         todo.extend(ast.iter_child_nodes(n))
 
 
+def walk_code(node):
+    """Like walk_no_nested_defs but descends into lambdas and nested function definitions: everything that can run as
+    part of this function (code of nested classes is still skipped)."""
+    todo = list(ast.iter_child_nodes(node))
+    while todo:
+        n = todo.pop()
+        yield n
+        if isinstance(n, ast.ClassDef):
+            continue
+        todo.extend(ast.iter_child_nodes(n))
+
+
+def possible_strings(prog, f, node):
+    """Set of strings an expression used as an attribute / method name can take, or None if not determined:
+    a constant, or a name bound by a for-loop / comprehension over a constant sequence (directly, through zip() at the
+    name's position, or through a sequence of constant tuples)."""
+    ok, v = prog.try_const(node, f.mod)
+    if ok:
+        return {v} if isinstance(v, str) else None
+    if not isinstance(node, ast.Name):
+        return None
+    out = set()
+    found = False
+    for n in walk_code(f.node):
+        tgt = it = None
+        if isinstance(n, ast.For):
+            tgt, it = n.target, n.iter
+        elif isinstance(n, ast.comprehension):
+            tgt, it = n.target, n.iter
+        if tgt is None:
+            continue
+        pos = None
+        if isinstance(tgt, ast.Name) and tgt.id == node.id:
+            pos = ()
+        elif isinstance(tgt, (ast.Tuple, ast.List)):
+            for i, e in enumerate(tgt.elts):
+                if isinstance(e, ast.Name) and e.id == node.id:
+                    pos = (i,)
+        if pos is None:
+            if any(isinstance(x, ast.Name) and x.id == node.id for x in ast.walk(tgt)):
+                return None
+            continue
+        found = True
+        seq = it
+        if pos and isinstance(it, ast.Call) and isinstance(it.func, ast.Name) and it.func.id == "zip" and len(it.args) > pos[0]:
+            seq, pos = it.args[pos[0]], ()
+        ok, v = prog.try_const(seq, f.mod)
+        if not ok or not isinstance(v, (tuple, list)):
+            return None
+        for x in v:
+            if pos:
+                if not isinstance(x, (tuple, list)) or len(x) <= pos[0]:
+                    return None
+                x = x[pos[0]]
+            if not isinstance(x, str):
+                return None
+            out.add(x)
+    # any other binding of the name makes the set unknown
+    for n in walk_code(f.node):
+        if isinstance(n, ast.Name) and n.id == node.id and isinstance(n.ctx, ast.Store):
+            par = getattr(n, "parent", None)
+            while par is not None and not isinstance(par, (ast.For, ast.comprehension, ast.stmt)):
+                par = getattr(par, "parent", None)
+            if not isinstance(par, (ast.For, ast.comprehension)):
+                return None
+    if node.id in f.params or node.id in f.kwonly:
+        return None
+    return out if found else None
+
+
 def attr_path(node):
     """'self.next_states' for Attribute(Name self, next_states); None if not a pure path."""
     parts = []
